@@ -313,12 +313,15 @@ def gen_line(rng, o, bad):
     for the current abstract state `o`."""
     T, P = o.T, o.P
     valid = [h for h in T if T[h] is not None]
+    invalid = [h for h in T if T[h] is None]
     wild = rng.random() < bad
 
     def anyh():
         return rng.randrange(NH)
 
     def src():
+        if wild and invalid and rng.random() < 0.5:
+            return rng.choice(invalid)
         if wild or not valid:
             return anyh()
         return rng.choice(valid)
@@ -328,7 +331,7 @@ def gen_line(rng, o, bad):
 
     ops = ["new"] * 6 + ["copy"] * 6 + ["copyctor"] * 3 + ["move"] * 5 + ["reshape"] * 6 + ["flatten"] * 3 + \
           ["reset"] * 3 + ["resetv"] * 3 + ["iadd"] * 8 + ["isub"] * 5 + ["imul"] * 5 + ["invalidate"] * 2 + ["drop"] * 2 + \
-          ["read", "shape", "valid", "device"] + ["param"] * 3 + ["pvalue"] * 3 + ["pgrad"] * 2 + ["ptensor"] * 3 + \
+          ["read", "shape", "valid", "device"] * 2 + ["param"] * 3 + ["pvalue"] * 3 + ["pgrad"] * 2 + ["ptensor"] * 3 + \
           ["piadd_value"] * 4 + ["pdrop", "live"]
     op = rng.choice(ops)
     if not wild:
@@ -551,14 +554,12 @@ def run(chk):
         return out[1:]
 
     reported = 0
-    bad_hist = set()
     for (lines, impl, model), (dev, spans) in zip(seen, index):
         for (a, b) in spans:
             h = lines[a:b]
             v = first_violation(h, impl[a:b])
             if v is None:
                 continue
-            bad_hist.add((dev, a, id(lines)))
             if reported >= 5:
                 continue
             reported += 1
@@ -613,3 +614,30 @@ def run(chk):
         "node values cached in a Graph and optimizer updates are not part of this family (C05/C06/C12 cover the graph and optimizer state)",
     ]
     chk.assumptions += ["element values are integers of magnitude <= 2^20, so float32 addition, subtraction and multiplication are exact"]
+
+
+def replay(path):
+    """Re-run a recorded history on a fresh build of the working tree: implementation, Lean model and oracle side by side."""
+    import json
+    from vlib import lean as vlean
+    obj = json.load(open(path))
+    rp = obj.get("replay", {})
+    print("replay of C07: %s" % obj.get("what", "")[:400])
+    if "lines" not in rp:
+        print(json.dumps(rp, indent=1)[:3000])
+        return 0
+    exe = build.build_harness(HARNESS)
+    vlean.lake(["build", "drv_" + FAMILY])
+    lines = rp["lines"]
+    impl, reports = vrun.run_impl(exe, lines, stateful=True)
+    model = vrun.run_model(FAMILY, lines)
+    exp = expected(lines)
+    bad = 0
+    for l, i, m, e in zip(lines, impl, model, exp):
+        ok = agrees(e, i)
+        bad += 0 if ok else 1
+        es = e if not isinstance(e, tuple) else "ok n, %d<=n<=%d" % e
+        print("%s %s\n    impl  : %s\n    model : %s\n    oracle: %s" % (" " if ok else "!", l, i, m, es))
+    for r in reports:
+        print("crash report:", r["kind"], (r.get("stderr") or "")[-600:])
+    return 1 if bad or reports else 0
